@@ -250,6 +250,33 @@ theorem learns_alt_only_unforced_https (cfg : Cfg) (req : Req) (v : Ver) (adv : 
   simp at h
   exact ⟨h.1.1.2, h.1.2, h.1.1.1.2⟩
 
+/-- Alt-Svc entries are per origin: what is learned for origin `a` is found for `b` only if `b`
+is `a` (same scheme, host AND port) or `b` had an entry of its own. -/
+theorem alt_entry_is_per_origin (j : AltState) (a b : Origin) (h : altHas (altLearn j a) b = true) :
+    b = a ∨ altHas j b = true := by
+  unfold altHas altLearn at *
+  simp at h
+  rcases h with h | h
+  · left; exact h
+  · right; simpa using h
+
+/-- Hence an un-forced https request for an origin that never advertised anything is routed as
+if no Alt-Svc existed at all, whatever was learned for other ports of the same host. -/
+theorem other_origin_unaffected (cfg : Cfg) (req : Req) (net : Net) (a b : Origin) (hne : b ≠ a)
+    (hb : net.alt = altHas (altLearn [] a) b) : route cfg req net = dispatch cfg req net := by
+  have : net.alt = false := by
+    rw [hb]
+    cases h : altHas (altLearn [] a) b with
+    | false => rfl
+    | true =>
+      rcases alt_entry_is_per_origin [] a b h with h1 | h1
+      · exact absurd h1 hne
+      · simp [altHas] at h1
+  unfold route
+  simp [this]
+
+example : altHas (altLearn [] ⟨.https, 1, 8443⟩) ⟨.https, 1, 8444⟩ = false := by decide
+
 /-! ### the un-patched order (Alt-Svc shortcut first): where the property fails -/
 
 /-- Witness replayed by the e2e lane (class `altsvc-overrides-forced-version`): HTTP/1.1 forced,
